@@ -93,7 +93,7 @@ def gen_case(rng, backend, realtime, big_ok=True, nops=None):
         elif k < 0.76:
             ops.append({"op": "rem", "n": node, "tid": rng.choice(tids)})
         elif k < 0.88:
-            if backend in VIRTUAL and ffs < 5 and (not realtime or rng.random() < 0.5):
+            if backend != "hybridsplit" and ffs < 5 and (not realtime or rng.random() < 0.5):
                 # multiples of 10 ms plus 1: a sum never equals a ttl (307, 30007, 30000, 86400000 ms) with <= 5 of them
                 d = rng.choice([10, 100, eff // 2 // 10 * 10, (eff - 20) // 10 * 10, (eff + 20) // 10 * 10, 2 * eff // 10 * 10]) + 1
                 if rng.random() < 0.05:
@@ -138,6 +138,93 @@ def directed_cases(rng):
                 {"op": "ff", "d": 21}, {"op": "look", "n": 1, "tid": t}, {"op": "look", "n": 0, "tid": t},
                 {"op": "regaddr", "n": 0, "id": hexs("n"), "addr": hexs("a:1")}, {"op": "ff", "d": 86399001}, {"op": "getaddr", "n": 1, "id": hexs("n")},
                 {"op": "ff", "d": 2001}, {"op": "getaddr", "n": 1, "id": hexs("n")}]})
+    return out
+
+
+HOUR = 3600000
+ADDR_TTL = 24 * HOUR
+
+
+def addr_case(backend, nodes, ops):
+    return {"backend": backend, "ttl_ms": 0, "nodes": nodes, "ops": ops, "stream": "valid", "addr": True}
+
+
+def addr_directed(rng):
+    """the server's refresh loop (components_session.go): register, then every 59m59s register the same address again,
+    for more than a day of BACKEND time (miniredis.FastForward / memory VerifAdvance); the address must resolve from the
+    other node whenever the latest registration is younger than NodeAddressTTL.  On every backend with a movable clock."""
+    out = []
+    for b in ("memory", "redis", "hybrid", "hybridone", "lazy"):
+        nid, a = hexs("node-0"), hexs("10.0.0.1:50052")
+        for rounds in (3, 24, 30):
+            ops = [{"op": "regaddr", "n": 0, "id": nid, "addr": a}, {"op": "getaddr", "n": 1, "id": nid}]
+            for k in range(rounds):
+                ops += [{"op": "ff", "d": HOUR - 999}, {"op": "regaddr", "n": 0, "id": nid, "addr": a}]
+                if k % 7 == 6 or k == rounds - 1:
+                    ops.append({"op": "getaddr", "n": 1, "id": nid})
+            # one minute after the latest refresh a tunnel waits on node 0 and node 1 resolves it and then the node's address
+            t = hexs("tcp-tunnel-1759260000000000000-443")
+            rec = {"tunnel": t, "mapping": hexs("m"), "secret": hexs("s"), "node": nid, "src": 1, "dst": 2, "host": hexs("h"), "port": 443}
+            ops += [{"op": "ff", "d": 60001}, {"op": "reg", "n": 0, "rec": rec}, {"op": "look", "n": 1, "tid": t}, {"op": "getaddr", "n": 1, "id": nid},
+                    {"op": "ff", "d": ADDR_TTL - 120001}, {"op": "getaddr", "n": 1, "id": nid},       # still inside the lifetime of the latest refresh
+                    {"op": "ff", "d": 180001}, {"op": "getaddr", "n": 1, "id": nid},                   # nobody refreshed for > 24 h: gone
+                    {"op": "regaddr", "n": 1, "id": nid, "addr": a}, {"op": "getaddr", "n": 0, "id": nid}]
+            out.append(addr_case(b, 2, ops))
+        # the address changes at a refresh; another node's id is not refreshed and lapses on its own
+        other = hexs("node-1")
+        out.append(addr_case(b, 2, [
+            {"op": "regaddr", "n": 0, "id": nid, "addr": a}, {"op": "regaddr", "n": 1, "id": other, "addr": hexs("10.0.0.2:50052")},
+            {"op": "ff", "d": 13 * HOUR + 1}, {"op": "regaddr", "n": 0, "id": nid, "addr": hexs("10.9.9.9:50052")},
+            {"op": "ff", "d": 12 * HOUR + 1}, {"op": "getaddr", "n": 1, "id": nid}, {"op": "getaddr", "n": 0, "id": other},
+            {"op": "ff", "d": 11 * HOUR + 1}, {"op": "getaddr", "n": 1, "id": nid},
+            {"op": "ff", "d": 1 * HOUR + 1}, {"op": "getaddr", "n": 1, "id": nid}]))
+    return out
+
+
+def addr_random(rng, n):
+    out = []
+    amounts = [HOUR - 999, HOUR + 1, 2 * HOUR + 1, 12 * HOUR + 1, ADDR_TTL - 999, ADDR_TTL + 11, 60001, 11]
+    for i in range(n):
+        b = ("memory", "redis", "hybrid", "hybridone", "lazy")[i % 5]
+        nodes = rng.choice([2, 3])
+        ids = [hexs("node-%d" % k) for k in range(nodes)] + [hexs(rand_str(rng))]
+        cur = {}
+        ops = []
+        for _ in range(rng.randrange(8, 40)):
+            k = rng.random()
+            node = rng.randrange(nodes)
+            nid = rng.choice(ids)
+            if k < 0.35 or not cur:
+                if nid in cur and rng.random() < 0.8:
+                    a = cur[nid]          # a refresh: the same address again
+                else:
+                    a = hexs(rand_str(rng, nonempty=True))
+                cur[nid] = a
+                ops.append({"op": "regaddr", "n": node, "id": nid, "addr": a})
+            elif k < 0.7:
+                ops.append({"op": "ff", "d": rng.choice(amounts)})
+            else:
+                ops.append({"op": "getaddr", "n": node, "id": nid})
+        ops.append({"op": "getaddr", "n": 0, "id": ids[0]})
+        out.append(addr_case(b, nodes, ops))
+    return out
+
+
+BRIDGE_WAYS = ["abort", "cancel", "complete", "duplicate", "restart"]
+
+
+def bridge_cases(rng, thorough):
+    """the REAL call sites: SessionManager.startSourceBridge registers, runBridgeLifecycle removes - for every way a
+    tunnel ends.  'timeout' (nobody attaches, Start() gives up after its own 30 s) only in the thorough tier."""
+    out = []
+    for b in ("memory", "redis", "hybrid", "hybridone"):
+        for w in BRIDGE_WAYS + (["timeout"] if thorough and b in ("memory", "hybrid") else []):
+            for rep in range(3 if thorough and w != "timeout" else 1):
+                tid = rng.choice(["tcp-tunnel-1759260000000000000-8080", "server-udp-pmap_1-1759260000000000001"]) if rep == 0 else rand_str(rng, nonempty=True)
+                rec = {"tunnel": hexs(tid), "mapping": hexs("pmap_%d" % rng.randrange(1000)), "secret": hexs(rand_str(rng)), "node": "",
+                       "src": rng.choice([10000001, 2 ** 53 + 1, 2 ** 62]), "dst": rng.choice([10000002, 2 ** 53 + 3, 77]),
+                       "host": hexs(rng.choice(["127.0.0.1", "例え.jp", ""])), "port": rng.choice([0, 22, 8080, 65535])}
+                out.append({"backend": b, "stream": "bridge", "way": w, "rec": rec, "ttl_ms": 120007 if w == "timeout" else 0, "nodes": 2})
     return out
 
 
@@ -274,13 +361,15 @@ def run(ctx, only_cases=None, only_probes=None):
     try:
         pinfo = vlib.coq_properties(PROP)
         vlib.proof_coverage(ctx, pinfo, "make -C coq Properties/C09.vo && coqc Properties/C09.v (Print Assumptions audit)",
-                            extra_obligations=9)  # the 7 regenerated side conditions + 2 deployment lemmas of Proofs/SideC09.v
+                            extra_obligations=11)  # the 8 regenerated side conditions + 3 deployment lemmas of Proofs/SideC09.v
     except vlib.Broken as b:
         broken = b   # keep going: search the implementation for a concrete failing input first
 
     if only_cases is not None:
         cases = only_cases
         probes, invalid = list(only_probes or []), []
+        bridges = [p for p in probes if p.get("stream") == "bridge"]
+        probes = [p for p in probes if p.get("stream") != "bridge"]
     else:
         cases = load_corpus() + directed_cases(rng)
         n_virtual = 3000 if thorough else 220
@@ -289,7 +378,9 @@ def run(ctx, only_cases=None, only_probes=None):
             cases.append(gen_case(rng, BACKENDS[i % len(BACKENDS)], False, big_ok=(i % 9 == 0)))
         for i in range(n_real):
             cases.append(gen_case(rng, BACKENDS[i % len(BACKENDS)], True, big_ok=(i % 9 == 0)))
+        cases += addr_directed(rng) + addr_random(rng, 400 if thorough else 40)
         cases += poll_cases(rng, 24 if thorough else 6)
+        bridges = bridge_cases(rng, thorough)
         invalid = invalid_cases(rng, 120 if thorough else 30)
         probes = [{"backend": b, "stream": "probe"} for b in BACKENDS + ["mapshape", "race"]]
     outs = vlib.run_harness(binary, cases, timeout=1500, env={"VERIF_C09_PAR": "48" if thorough else "32"})
@@ -311,6 +402,21 @@ def run(ctx, only_cases=None, only_probes=None):
             small, so = c, o
         ctx.violation(key, "real tunnel.RoutingTable on %s: %s" % (c["backend"], so.get("prop_msg")),
                       {"case": small, "observed": so["obs"], "fail_at": so.get("fail_at")})
+
+    # (iii-b) the registration / removal call sites driven through the real SessionManager
+    bridge_out = vlib.run_harness(binary, bridges, timeout=900) if bridges else []
+    nbridge_fail = 0
+    for c, o in zip(bridges, bridge_out):
+        if o["prop_ok"]:
+            continue
+        nbridge_fail += 1
+        nfail += 1
+        key = o.get("prop_key") or "bridge"
+        if key in reported or len(reported) >= 4:
+            continue
+        reported.add(key)
+        ctx.violation(key, "real SessionManager.startSourceBridge/runBridgeLifecycle with the routing table on %s: %s (events: %s)"
+                      % (c["backend"], o.get("prop_msg"), "; ".join(o.get("events", []))), {"probe": c, "observed": o})
 
     # (ii) the model replays every history that the harness observed
     idx = [i for i, c in enumerate(cases) if modelable(c)]
@@ -374,7 +480,24 @@ def run(ctx, only_cases=None, only_probes=None):
     amb = sum(o["ambiguous"] for o in outs)
     distinct, nontrivial = set(), set()
     dist = {"by_backend": {}, "ops": {}, "realtime_histories": 0, "virtual_clock_histories": 0, "field_64KB_records": 0,
-            "ids_above_2^53": 0, "unicode_fields": 0, "empty_fields": 0, "lookup_answers": {}, "poll_histories": 0}
+            "ids_above_2^53": 0, "unicode_fields": 0, "empty_fields": 0, "lookup_answers": {}, "poll_histories": 0,
+            "node_address_histories": sum(1 for c in cases if c.get("addr")),
+            "node_address_refreshes": 0, "node_address_reads": {},
+            "bridge_lifecycle_cases": {}}
+    for c, o in zip(bridges, bridge_out):
+        k = "%s/%s" % (c["backend"], c["way"])
+        dist["bridge_lifecycle_cases"][k] = dist["bridge_lifecycle_cases"].get(k, 0) + 1
+    for c, o in zip(cases, outs):
+        seen = set()
+        for op, ob in zip(c["ops"], o["obs"]):
+            if op["op"] == "regaddr":
+                if (op["id"], op["addr"]) in seen:
+                    dist["node_address_refreshes"] += 1
+                seen.add((op["id"], op["addr"]))
+            elif op["op"] == "getaddr":
+                dist["node_address_reads"][ob["res"]] = dist["node_address_reads"].get(ob["res"], 0) + 1
+    if True:
+        pass
     for c, o in zip(cases, outs):
         h = vlib.hashlib.sha256(json.dumps(c, sort_keys=True).encode()).hexdigest()
         distinct.add(h)
@@ -403,7 +526,9 @@ def run(ctx, only_cases=None, only_probes=None):
                 if any(r[f] == "" for f in ("mapping", "secret", "node", "host")):
                     dist["empty_fields"] += 1
     ctx.coverage.update({
-        "evaluations": len(cases) + len(invalid) + len(probes), "distinct_nontrivial": len(nontrivial),
+        "evaluations": len(cases) + len(invalid) + len(probes) + len(bridges), "distinct_nontrivial": len(nontrivial),
+        "bridge_lifecycle_failures": nbridge_fail,
+        "bridge_lifecycle_samples": [{"backend": c["backend"], "way": c["way"], "events": o["events"]} for c, o in list(zip(bridges, bridge_out))[:6]],
         "rule": "histories of register/lookup/remove/expire (+node-address) operations over 3 tunnel ids and 2-3 RoutingTable "
                 "instances generated from VERIF_SEED by one PRNG (corpus and directed histories first), each run on the real "
                 "RoutingTable over one of six backend configurations; distinct = distinct case JSON; non-trivial = at least one "
@@ -427,6 +552,10 @@ def run(ctx, only_cases=None, only_probes=None):
         "one RoutingTable call is one atomic step (Get and the Delete of an expired record are not interleaved with other nodes' calls)",
         "wall-clock and monotonic readings of time.Now agree within 5 ms over one history (guard band of the timing classification)",
         "storage errors (Redis down) are not modelled: the backends of the run do not fail",
+        "backend time on memory.Storage is moved by shifting the stored deadlines (export shim VerifAdvance), on Redis by miniredis.FastForward",
+        "the call sites startSourceBridge / runBridgeLifecycle are driven on a real SessionManager with a 7-method fake CloudControlAPI "
+        "(one port mapping) and net.Pipe connections; they are checked by the Go-side predicate, not replayed on the Coq model "
+        "(their effect on the table is the model's Register / Remove)",
     ]
     if broken is not None:
         raise broken
@@ -438,4 +567,4 @@ def replay(ctx, path):
     if "case" in rp:
         run(ctx, only_cases=[rp["case"]])
     else:
-        run(ctx, only_cases=[], only_probes=[rp.get("probe", {"backend": "race", "stream": "probe"})])
+        run(ctx, only_cases=[], only_probes=[rp.get("probe", {"backend": "race", "stream": "probe"})])   # probe or bridge case
